@@ -23,6 +23,28 @@ if TYPE_CHECKING:
 
 
 class _SubroutineDeclByOption:
+    # Stack of recorders, one per active `_forgetting_context`; the innermost one is told
+    # about every declaration that gets evaluated and cached while it is active.
+    _recorders: ClassVar[list[list[tuple["_SubroutineDeclByOption", bool]]]] = []
+
+    @classmethod
+    @contextmanager
+    def _forgetting_context(cls):
+        """Forget, on exit, every declaration that was evaluated and cached inside.
+
+        To be used by code that rewinds the scratch slot counter: a declaration evaluated
+        after the point the counter is rewound to holds slots whose ids are about to be
+        handed out again, so it must not outlive the rewind.
+        """
+        recorder: list[tuple["_SubroutineDeclByOption", bool]] = []
+        cls._recorders.append(recorder)
+        try:
+            yield
+        finally:
+            cls._recorders.remove(recorder)
+            for decls, fp_option in recorder:
+                decls.option_map[fp_option] = None
+
     def __init__(self, subroutine_def: "SubroutineDefinition") -> None:
         self.subroutine: SubroutineDefinition = subroutine_def
         self.option_map: dict[bool, SubroutineDeclaration | None] = {
@@ -53,15 +75,15 @@ class _SubroutineDeclByOption:
         self.option_map[fp_option] = self.option_method[fp_option].evaluate(
             self.subroutine
         )
+        if _SubroutineDeclByOption._recorders:
+            _SubroutineDeclByOption._recorders[-1].append((self, fp_option))
         return cast(SubroutineDeclaration, self.option_map[fp_option])
 
     def __probe_info(self, fp_option: bool) -> tuple[bool, TealType]:
         starting_slot_id = ScratchSlot.nextSlotId
-        is_pre_existing = self.option_map[fp_option] is not None
-        decl = self.get_declaration_by_option(fp_option)
-        has_return, type_of = decl.has_return(), decl.type_of()
-        if not is_pre_existing:
-            self.option_map[fp_option] = None
+        with _SubroutineDeclByOption._forgetting_context():
+            decl = self.get_declaration_by_option(fp_option)
+            has_return, type_of = decl.has_return(), decl.type_of()
         ScratchSlot.reset_slot_numbering(starting_slot_id)
         return has_return, type_of
 
